@@ -658,6 +658,51 @@ func runC14(c *Ctx) {
 			adds = append(adds, in)
 		}
 	})
+	// the old instance is addressed by the registry key of the updated configuration (its ReplicaName)
+	for _, rmi := range removes {
+		okKey := false
+		for _, a := range ArgsOf(CallCommonOf(rmi)) {
+			if PathOf(a).LastField() == s.FReplicaName {
+				okKey = true
+			}
+		}
+		c.Check(okKey, r4, "removal-key", p.InstrPos(rmi), "the old instance is removed under its replica name", "the update removes the old instance under another name than the ReplicaName the registries are keyed by (e.g. Name): for a replica nothing is found, the old instance keeps running beside the new one and is orphaned")
+	}
+	// the incoming configuration is normalised (executable/args assigned, probes defaulted) before it is compared
+	// with the stored, normalised one - otherwise an unchanged process compares as changed and is restarted
+	{
+		assign := p.TryMethod("types", "ProcessConfig", "AssignProcessExecutableAndArgs")
+		vsd := p.TryMethod("health", "Probe", "ValidateAndSetDefaults")
+		var cmpCalls []ssa.Instruction
+		AllInstrs(up, func(in ssa.Instruction) {
+			if call, ok := in.(*ssa.Call); ok && call.Call.StaticCallee() == cmp {
+				cmpCalls = append(cmpCalls, in)
+			}
+		})
+		if len(cmpCalls) > 0 && assign != nil && vsd != nil {
+			for _, nm := range []struct {
+				name string
+				fn   *ssa.Function
+			}{{"executable-and-args", assign}, {"probe-defaults", vsd}} {
+				d := p.Deep(CallOfFn(nm.name, nm.fn))
+				barrier := func(in ssa.Instruction) bool {
+					switch in.(type) {
+					case *ssa.Go, *ssa.Defer:
+						return false
+					}
+					return d.MayAt(in)
+				}
+				bad := false
+				vis := Reach(Entry(up), barrier, nil)
+				for _, cc := range cmpCalls {
+					if vis[cc] {
+						bad = true
+					}
+				}
+				c.Check(!bad, r4, "normalised-before-compare:"+nm.name, FirstPos(p, up), "normalised before the comparison", "the updated configuration is compared with the stored one before its "+nm.name+" were normalised: a configuration that did not come through the loader always differs, so re-applying an unchanged process terminates and relaunches it")
+			}
+		}
+	}
 	if c.Check(len(removes) >= 1 && len(adds) >= 1, r4, "shape", FirstPos(p, up), "remove and add present", "the process update does not remove the old and add the new configuration") {
 		rm := p.Deep(Site{Name: "remove", Instr: func(in ssa.Instruction) bool { return isOneOf(in, removes) }})
 		r := MustPrecede(up, rm, func(in ssa.Instruction) bool { return isOneOf(in, adds) }, nil)
